@@ -208,14 +208,16 @@ fn decimal_times(v: &str, unit_ns: i128) -> Option<(i128, i128)> {
     }
     let (a, b) = v.split_once('.')?;
     let den = 10i128.checked_pow(b.len() as u32)?;
-    let num = (a.parse::<i128>().ok()? * den + b.parse::<i128>().ok()?) * unit_ns;
+    let ai = if a.is_empty() { 0 } else { a.parse::<i128>().ok()? };
+    let bi = if b.is_empty() { 0 } else { b.parse::<i128>().ok()? };
+    let num = (ai * den + bi) * unit_ns;
     Some((num, den))
 }
 
 fn spelling_cases(rep: &mut Rep, r: &mut Rng, exhaustive: bool) {
     for (sp, u) in SPELLINGS.iter() {
         let vals: Vec<String> = if exhaustive {
-            vec!["1".into(), "7".into(), "28".into(), "99".into(), "256".into(), "10.598".into(), "0.5".into(), "1.25".into()]
+            vec!["1".into(), "7".into(), "28".into(), "99".into(), "256".into(), "10.598".into(), "0.5".into(), "1.25".into(), ".5".into(), ".25".into(), "3.".into()]
         } else {
             vec![
                 format!("{}", r.below(10)),
@@ -264,6 +266,21 @@ fn multi_unit(rep: &mut Rep, r: &mut Rng) {
             s.push_str(&format!("{} {}", v, r.pick(&alt[i])));
             w += v * f;
         }
+    }
+    if r.chance(1, 4) {
+        // a many-digit millisecond or microsecond component (exactly representable, see below) followed by small ones: the
+        // sum must keep every nanosecond
+        let big_ms = r.below(2) == 0;
+        // v ms = v x 15625 x 2^6 ns and v us = v x 125 x 2^3 ns: a double holds the component exactly as long as the odd
+        // part stays below 2^53, i.e. v < 5.7e11 ms or v < 7.2e13 us - also when the component itself is beyond 2^53 ns
+        let v = if big_ms { 4_000_000_000 + r.below(400_000_000_000) } else { 4_000_000_000_000 + r.below(60_000_000_000_000) } as i128;
+        let (u, f) = if big_ms { ("ms", NS_MS) } else { ("us", NS_US) };
+        let (a, b) = (1 + r.below(999) as i128, 1 + r.below(999) as i128);
+        let t = if big_ms { format!("{v} {u} {a} us {b} ns") } else { format!("{v} {u} {b} ns") };
+        let wv = v * f + if big_ms { a * NS_US } else { 0 } + b;
+        rep.class("text/multi-unit-many-digits");
+        check_text(rep, &t, wv, "text/multi-unit");
+        check_text(rep, &format!("-{t}"), -wv, "text/negative-multi-unit");
     }
     if s.is_empty() {
         return;
